@@ -101,6 +101,20 @@ theorem C17_two_docs_independent (s1 s2 d1 d2 : String) (hlen : d1.length = d2.l
   have hl : d1.toList.length = d2.toList.length := by rw [String.length_toList, String.length_toList, hlen]
   exact String.ext (List.append_inj_right' h' hl)
 
+/-! ### boundary / constant species (round 4) -/
+
+/-- a boundary / constant species takes part in reactions without being changed by them: its amount has derivative 0
+    at every state, whatever the reactions and laws (there are no rate rules in the subset) -/
+theorem C17_fixed_species_constant (I : Interp) (d : Doc) (amounts : List (String × Rat)) (x : String) (s : Species)
+    (hs : findSpecies d x = some s) (hf : s.fixed = true) : docRhs17 I d amounts x = some 0 := by
+  simp [docRhs17, hs, hf]
+
+/-- … and every other species keeps the reading of the flat document: Σ (products − reactants) · law -/
+theorem C17_free_species_rhs (I : Interp) (d : Doc) (amounts : List (String × Rat)) (x : String) (s : Species)
+    (hs : findSpecies d x = some s) (hf : s.fixed = false) :
+    docRhs17 I d amounts x = docRhs I (toSDoc d) (symState d amounts) x := by
+  simp [docRhs17, hs, hf]
+
 /-! ### two documents read in one session do not interfere (Model/C17Session.lean) -/
 
 open Mxl.C17.GenSession in
